@@ -358,6 +358,7 @@ struct SynGen {
   pbt::Ctx& c;
   bool greek = true;          // allow Greek letters in local names
   int64_t maxInt = 2147483647;  // integer literals are drawn from [0, maxInt]
+  bool cornerIndices = false;   // also produce projection / filter indices 0, 32767, 32768, 70000 (C04: must be handled or rejected cleanly)
   explicit SynGen(pbt::Ctx& ctx) : c(ctx) {}
 
   std::string localName() {
@@ -371,7 +372,12 @@ struct SynGen {
     static const std::vector<std::string> names = {"X1", "X2", "C1", "S1", "S2", "D1", "D11", "A1", "T1", "X10"};
     return mkName(TID::ID_GLOBAL, c.oneof(names));
   }
-  std::vector<int> indices(int maxN) { std::vector<int> v; const int n = c.ipick(1, maxN); for (int i = 0; i < n; ++i) v.push_back(c.ipick(1, c.chance(1, 6) ? 12 : 3)); return v; }
+  std::vector<int> indices(int maxN) {
+    static const std::vector<int> corners = {0, 32767, 32768, 70000};
+    std::vector<int> v; const int n = c.ipick(1, maxN);
+    for (int i = 0; i < n; ++i) v.push_back((cornerIndices && c.chance(1, 5)) ? c.oneof(corners) : c.ipick(1, c.chance(1, 6) ? 12 : 3));
+    return v;
+  }
 
   EP variable(int depth) {  // LOCAL | tuple declaration
     if (depth <= 0 || c.chance(2, 3)) return local();
